@@ -11,6 +11,7 @@ import (
 	"sort"
 	"strconv"
 	"strings"
+	"time"
 
 	"github.com/jdillenkofer/pithos/internal/storage"
 )
@@ -88,6 +89,10 @@ func (e *c06Env) historyFor(tok string, ops []c06Op) *c06Hist {
 			c06Must(err)
 			note(r.VersionID, fmt.Sprintf("v%03d", i))
 		case 'm':
+			// upload ids are ULIDs and the listing orders same-key uploads by id; the canonical names u<i> identify
+			// ids by creation order, which ULIDs guarantee only across distinct milliseconds (within one
+			// millisecond, with other goroutines drawing ULIDs, the order is arbitrary) — so cross a ms boundary
+			time.Sleep(2 * time.Millisecond)
 			r, err := e.st.CreateMultipartUpload(ctx, bn, key, nil, nil, nil)
 			c06Must(err)
 			id := r.UploadId.String()
